@@ -6,9 +6,13 @@
 (*   tokens: CH (any byte other than & and -), AMP, DASH                    *)
 (*   us-ascii mode: "&-" -> two tokens consumed; "&" -> shift; else one     *)
 (*   shift mode: the for loop looks for "-"; found: consume through it;     *)
-(*               NOT found: the loop ends without break and `buf` is        *)
-(*               unchanged - the while loop spins (as-is).  Repaired:       *)
-(*               decode the rest and stop.                                  *)
+(*               NOT found: before the fix a67d1aa ("modified UTF-7 decoder *)
+(*               looped for ever on an unterminated shift") the for loop    *)
+(*               ended without break and `buf` was unchanged - the while    *)
+(*               loop span.  Since the fix (for ... else: break) the rest   *)
+(*               is decoded as the final shift and the function returns.    *)
+(*               Fixed = {} is the tree BEFORE that fix (kept so that TLC's *)
+(*               lasso can be shown), Fixed = AllDevs the tree as it is.    *)
 (* `spin` flips on an iteration that makes no progress so that the          *)
 (* non-termination is a lasso TLC reports for  Terminates == <>done.        *)
 (***************************************************************************)
